@@ -1,10 +1,28 @@
 //! svcheck: one binary, one sub-command per property (`svcheck C01 quick`, `svcheck C01 --replay F`).
 mod c01;
+mod c02;
+mod c03;
+mod c04;
+mod c05;
+mod c06;
 mod c07;
+mod c08;
+mod c09;
+mod c10;
+mod c11;
+mod c12;
+mod c13;
+mod c14;
+mod c15;
+mod c16;
+mod c17;
+mod c18;
+mod c19;
+mod c20;
 mod common;
 mod selftest;
 
-use vcore::{main_entry, Plan, Tier};
+use vcore::main_entry;
 
 fn main() {
     let args: Vec<String> = std::env::args().skip(1).collect();
@@ -16,8 +34,26 @@ fn main() {
     let rest = &args[1..];
     let code = match id.as_str() {
         "selftest" => selftest::run(),
-        "C01" => main_entry(&c01::C01, |t: Tier| Plan::new(t.pick(6_000, 400_000), t.pick(2600, 4000)), rest),
-        "C07" => main_entry(&c07::C07, |t: Tier| Plan::new(t.pick(20_000, 400_000), t.pick(2600, 4000)), rest),
+        "C01" => main_entry(&c01::CHECK, c01::plan, rest),
+        "C02" => main_entry(&c02::CHECK, c02::plan, rest),
+        "C03" => main_entry(&c03::CHECK, c03::plan, rest),
+        "C04" => main_entry(&c04::CHECK, c04::plan, rest),
+        "C05" => main_entry(&c05::CHECK, c05::plan, rest),
+        "C06" => main_entry(&c06::CHECK, c06::plan, rest),
+        "C07" => main_entry(&c07::CHECK, c07::plan, rest),
+        "C08" => main_entry(&c08::CHECK, c08::plan, rest),
+        "C09" => main_entry(&c09::CHECK, c09::plan, rest),
+        "C10" => main_entry(&c10::CHECK, c10::plan, rest),
+        "C11" => main_entry(&c11::CHECK, c11::plan, rest),
+        "C12" => main_entry(&c12::CHECK, c12::plan, rest),
+        "C13" => main_entry(&c13::CHECK, c13::plan, rest),
+        "C14" => main_entry(&c14::CHECK, c14::plan, rest),
+        "C15" => main_entry(&c15::CHECK, c15::plan, rest),
+        "C16" => main_entry(&c16::CHECK, c16::plan, rest),
+        "C17" => main_entry(&c17::CHECK, c17::plan, rest),
+        "C18" => main_entry(&c18::CHECK, c18::plan, rest),
+        "C19" => main_entry(&c19::CHECK, c19::plan, rest),
+        "C20" => main_entry(&c20::CHECK, c20::plan, rest),
         other => {
             println!("INFRA: no check registered for {}", other);
             2
